@@ -58,7 +58,7 @@ theorem dataKept_notifyIndex (sv : Server) (names : List Bytes) (node : Node) (i
 theorem pipeStep_of_dataKept {sv sv' : Server} (h : DataKept sv sv') (sid : Nat) : PipeStep sid sv sv' [] := by
   intro s hs
   obtain ⟨s', hs', hc, hd, hi⟩ := h sid s hs
-  refine ⟨s', [], hs', hc, by simp [dataLines, hi], fun m => ?_⟩
+  refine ⟨s', [], hs', vcore_of_core hc, by simp [dataLines, hi], fun m => ?_⟩
   simp [pend, hd, applyMsgs]
 
 /-- an operation that keeps every payload of the tree and the data pipes is an empty step for everybody -/
@@ -287,7 +287,7 @@ theorem sync_removeOne_core {sv : Server} (h : Inv sv) (a : Nat) (parent : List 
     unfold visible; rw [h2, h3]
   have h2 := sync_removeRest' hXt hXk parent key hc' hndX (hXn.unamb (hXn.names hc')) hs1 hen1 a hcv1
     (e1.foldl applyEv m)
-  exact ⟨_, h1.trans (sync_core hc1 h2)⟩
+  exact ⟨_, h1.trans (sync_core (vcore_of_core hc1) h2)⟩
 
 /-- `removeOne` of a node without visible descendants in the sender's subtree -/
 theorem syncAll_removeOne {sv : Server} (h : Inv sv) {a : Nat} {own : List Bytes} (hown : SameOwn a own sv)
